@@ -39,6 +39,26 @@ let parse_cmd (name : string) (a : string list) : cmd =
   let b = bytes_of_hex in
   match name, a with
   | "set", [k; v] -> CSet (b k, b v)
+  | "set", k :: v :: opts ->
+    (* getExNxXXArgs *)
+    let rec go l ttl nx xx = match l with
+      | [] -> CSetOpt (b k, b v, zi ttl, nx, xx)
+      | o :: r ->
+        let o = String.lowercase_ascii (str_of_bytes (bytes_of_hex o)) in
+        if o = "nx" then (if nx || xx then failwith "argerr" else go r ttl true xx)
+        else if o = "xx" then (if nx || xx then failwith "argerr" else go r ttl nx true)
+        else if o = "ex" then (match r with
+            | d :: r2 -> let dv = (try int_of_arg d with _ -> failwith "argerr") in
+              if dv <= 0 then failwith "argerr" else go r2 dv nx xx
+            | [] -> failwith "argerr")
+        else failwith "argerr" in
+    go opts 0 false false
+  | "setifeq", [k; o; v] -> CSetIfEq (b k, b o, b v, zi 0)
+  | "setifeq", [k; o; v; _; d] -> CSetIfEq (b k, b o, b v, zarg d)
+  | "delifeq", [k; o] -> CDelIfEq (b k, b o)
+  | "ltrim", [k; x; y] -> CLTrim (b k, zarg x, zarg y)
+  | "lset", [k; i; v] -> CLSet (b k, zarg i, b v)
+  | "zremrangebyrank", [k; x; y] -> CZRemRangeByRank (b k, zarg x, zarg y)
   | "setex", [k; d; v] -> CSetEx (b k, zarg d, b v)
   | "setnx", [k; v] -> CSetNx (b k, b v)
   | "getset", [k; v] -> CGetSet (b k, b v)
@@ -127,7 +147,7 @@ let () =
           let c = parse_cmd name args in
           let (s', r) = step !policy !st (zi (int_of_string ts)) c in
           st := s'; reply_s r
-        with Failure m -> "?driver:" ^ m) in
+        with Failure "argerr" -> "-err" | Failure m -> "?driver:" ^ m) in
       Printf.printf "%s\t%s\n" id out
     | id :: "O" :: now :: t :: k :: _ ->
       let now = zi (int_of_string now) and t = ty_of t in
